@@ -91,6 +91,37 @@ theorem C13_npm_alias_at_witness :
     ∃ d', write d [u] = .ok d' ∧ requirements d' ≠ substitute (requirements d) [u] := by
   refine ⟨_, rfl, by decide⟩
 
+/-- `Read` loses no entry, for EVERY document: each entry of the three sections that `makeNPMReqVer` accepts is among the
+requirements under its own identity (package and alias).  Holds since fix 8304c0d6; the former cascade (matching on the package
+alone) fails it on `{"dependencies": {"foo": …}, "devDependencies": {"bar": "npm:foo@…"}}` — second statement, decided. -/
+theorem C13_npm_read_complete (d : Doc) : readComplete d (requirements d) = true := readComplete_requirements d
+
+theorem C13_npm_read_complete_old_witness :
+    let d : Doc := ⟨[("bar".toList, "npm:foo@^2.0.0".toList)], [], [("foo".toList, "^1.0.0".toList)]⟩
+    -- what the cascade keyed by the package alone reported
+    readComplete d [⟨"foo".toList, some "bar".toList, "^2.0.0".toList⟩] = false := by decide
+
+/-- fix 8304c0d6, on the model: `"foo": "^1.0.0"` in dependencies and `"bar": "npm:foo@^2.0.0"` in devDependencies (or
+optionalDependencies) are two requirements — `foo` and `foo` known as `bar` — and an update of either re-reads as
+substituted.  (Before the fix the section cascade matched on the package alone: `Read` reported the alias only, the plain
+entry could neither be resolved nor updated.) -/
+theorem C13_npm_alias_separate_fixed_witness :
+    (let d : Doc := ⟨[("bar".toList, "npm:foo@^2.0.0".toList)], [], [("foo".toList, "^1.0.0".toList)]⟩
+     requirements d = [⟨"foo".toList, none, "^1.0.0".toList⟩, ⟨"foo".toList, some "bar".toList, "^2.0.0".toList⟩] ∧
+     (∀ u ∈ [(⟨"foo".toList, none, "^1.0.0".toList, "^1.5.0".toList⟩ : Up), ⟨"foo".toList, some "bar".toList, "^2.0.0".toList, "^3.0.0".toList⟩],
+       ∃ d', write d [u] = .ok d' ∧ requirements d' = substitute (requirements d) [u] ∧ requirements d' ≠ requirements d)) ∧
+    (let d : Doc := ⟨[], [("bar".toList, "npm:foo@^2.0.0".toList)], [("baz".toList, "npm:foo@^1.0.0".toList)]⟩
+     requirements d = [⟨"foo".toList, some "baz".toList, "^1.0.0".toList⟩, ⟨"foo".toList, some "bar".toList, "^2.0.0".toList⟩]) ∧
+    -- the same entry in two sections is still one requirement (the later section's version)
+    (let d : Doc := ⟨[("bar".toList, "npm:foo@^2.0.0".toList)], [], [("bar".toList, "npm:foo@^1.0.0".toList)]⟩
+     requirements d = [⟨"foo".toList, some "bar".toList, "^2.0.0".toList⟩]) := by
+  refine ⟨⟨by decide, ?_⟩, by decide, by decide⟩
+  intro u hu
+  simp only [List.mem_cons, List.mem_nil_iff, or_false] at hu
+  rcases hu with rfl | rfl
+  · exact ⟨_, rfl, by decide, by decide⟩
+  · exact ⟨_, rfl, by decide, by decide⟩
+
 /-- An update for a key that NO section holds is outside the property's quantifier ("updates addressed to
 requirements present in the file"): `Write` answers ok and changes nothing — stated as a witness. -/
 theorem C13_npm_absent_key_witness :
@@ -268,10 +299,10 @@ theorem C13_pom_no_silent_success_partial (pom pom' : Pom) (us : List Upd) (c : 
 update addressed to dependencyManagement while `<dependencies>` holds the same key, and a property shared
 with another dependency.  In both `Write` succeeds. -/
 theorem C13_pom_class_witnesses :
-    (let pom : Pom := ⟨[⟨[], ['x'], ['y'], [], [], "1.0".toList, false⟩, ⟨sManagement, ['x'], ['y'], [], [], "2.0".toList, false⟩], [], "1.0".toList⟩
+    (let pom : Pom := ⟨[⟨[], ['x'], ['y'], [], [], "1.0".toList, false⟩, ⟨sManagement, ['x'], ['y'], [], [], "2.0".toList, false⟩], [], "1.0".toList, []⟩
      let us : List Upd := [⟨"x:y".toList, [], [], sManagement, "2.0".toList, "2.5".toList⟩]
      (write pom us).isSome = true ∧ reqsAfter pom us ≠ some (substitute (requirements pom) us) ∧ feature pom us = some "C13/pom-origin-ignored") ∧
-    (let pom : Pom := ⟨[⟨[], ['x'], ['y'], [], [], "${v}".toList, false⟩, ⟨[], ['x'], ['z'], [], [], "${v}".toList, false⟩], [⟨[], ['v'], "1.0".toList⟩], "1.0".toList⟩
+    (let pom : Pom := ⟨[⟨[], ['x'], ['y'], [], [], "${v}".toList, false⟩, ⟨[], ['x'], ['z'], [], [], "${v}".toList, false⟩], [⟨[], ['v'], "1.0".toList⟩], "1.0".toList, []⟩
      let us : List Upd := [⟨"x:y".toList, [], [], [], "1.0".toList, "1.5".toList⟩]
      (write pom us).isSome = true ∧ reqsAfter pom us ≠ some (substitute (requirements pom) us) ∧ feature pom us = some "C13/pom-shared-property") := by
   decide
@@ -281,7 +312,7 @@ theorem C13_pom_class_witnesses :
 under property origin "" where nothing holds `w`; `Write` reports success and the written pom is the input. -/
 theorem C13_pom_other_profile_witness :
     let pom : Pom := ⟨[⟨[], ['x'], ['m'], [], [], "1.0".toList, false⟩, ⟨"profile@p1".toList, ['x'], ['q'], [], [], "${w}".toList, false⟩],
-                      [⟨"profile@p2".toList, ['w'], "1.0".toList⟩], "1.0".toList⟩
+                      [⟨"profile@p2".toList, ['w'], "1.0".toList⟩], "1.0".toList, []⟩
     let us : List Upd := [⟨"x:q".toList, [], [], [], "${w}".toList, "2.0".toList⟩]
     write pom us = some pom ∧ reqsAfter pom us ≠ some (substitute (requirements pom) us) ∧
     feature pom us = some "C13/pom-property-other-profile" := by
@@ -292,30 +323,57 @@ theorem C13_pom_other_profile_witness :
 in the file is written all the same.  Such an update is not "addressed to a requirement present in the file", so it is
 outside the property's quantifier; recorded as a witness and exercised by the stream (wrong-from updates). -/
 theorem C13_pom_ignores_version_from_witness :
-    let pom : Pom := ⟨[⟨[], ['x'], ['y'], [], [], "1.0".toList, false⟩], [], "1.0".toList⟩
+    let pom : Pom := ⟨[⟨[], ['x'], ['y'], [], [], "1.0".toList, false⟩], [], "1.0".toList, []⟩
     write pom [⟨"x:y".toList, [], [], [], "0.0.0-wrong".toList, "1.5".toList⟩] =
-      some ⟨[⟨[], ['x'], ['y'], [], [], "1.5".toList, false⟩], [], "1.0".toList⟩ := by decide
+      some ⟨[⟨[], ['x'], ['y'], [], [], "1.5".toList, false⟩], [], "1.0".toList, []⟩ := by decide
 
 /-- the three repaired classes, on the model: white space in a key element (5743d35a), `${project.version}`
 (f5d17448), a repeated placeholder with different values (d4dd80ce) now read back as substituted. -/
 theorem C13_pom_fixed_witnesses :
-    (let pom : Pom := ⟨[⟨[], ['x'], ['y'], [], [], "1.0".toList, true⟩], [], "1.0".toList⟩
+    (let pom : Pom := ⟨[⟨[], ['x'], ['y'], [], [], "1.0".toList, true⟩], [], "1.0".toList, []⟩
      let us : List Upd := [⟨"x:y".toList, [], [], [], "1.0".toList, "1.5".toList⟩]
      reqsAfter pom us = some (substitute (requirements pom) us)) ∧
-    (let pom : Pom := ⟨[⟨[], ['x'], ['y'], [], [], "${project.version}".toList, false⟩], [], "1.0".toList⟩
+    (let pom : Pom := ⟨[⟨[], ['x'], ['y'], [], [], "${project.version}".toList, false⟩], [], "1.0".toList, []⟩
      let us : List Upd := [⟨"x:y".toList, [], [], [], "1.0".toList, "1.5".toList⟩]
      reqsAfter pom us = some (substitute (requirements pom) us)) ∧
-    (let pom : Pom := ⟨[⟨[], ['x'], ['z'], [], [], "${v}-${v}".toList, false⟩], [⟨[], ['v'], "1.0".toList⟩], "1.0".toList⟩
+    (let pom : Pom := ⟨[⟨[], ['x'], ['z'], [], [], "${v}-${v}".toList, false⟩], [⟨[], ['v'], "1.0".toList⟩], "1.0".toList, []⟩
      let us : List Upd := [⟨"x:z".toList, [], [], [], "1.0-1.0".toList, "1.0-2.0".toList⟩]
      reqsAfter pom us = some (substitute (requirements pom) us)) := by
+  decide
+
+/-- fix e5fd6d2f, on the model: a dependency written `${project.groupId}:y` (or `${pom.groupId}:y`) in project `g:…` is the
+requirement `g:y`; the update `g:y 1.0 → 1.5` finds it (`ResolvedKey`), rewrites that entry — the file keeps the
+placeholder — and the pom re-reads as substituted.  (Before the fix the update was taken for a key the pom does not hold.) -/
+theorem C13_pom_project_key_fixed_witness :
+    (let pom : Pom := ⟨[⟨[], "${project.groupId}".toList, ['y'], [], [], "1.0".toList, false⟩], [], "1.0".toList, ['g']⟩
+     let us : List Upd := [⟨"g:y".toList, [], [], [], "1.0".toList, "1.5".toList⟩]
+     write pom us = some ⟨[⟨[], "${project.groupId}".toList, ['y'], [], [], "1.5".toList, false⟩], [], "1.0".toList, ['g']⟩ ∧
+     reqsAfter pom us = some (substitute (requirements pom) us) ∧ feature pom us = none) ∧
+    (let pom : Pom := ⟨[⟨sManagement, "${pom.groupId}".toList, ['y'], [], [], "${project.version}".toList, false⟩], [], "1.0".toList, ['g']⟩
+     let us : List Upd := [⟨"g:y".toList, [], [], sManagement, "1.0".toList, "1.5".toList⟩]
+     reqsAfter pom us = some (substitute (requirements pom) us) ∧ feature pom us = none) := by
+  decide
+
+/-- known finding C13/pom-key-property, on the model: the group id of a dependency is a property of the pom
+(`<groupId>${grp}</groupId>`, `grp` = `g`).  `Read` reports the requirement `g:y 1.0`; the writer resolves only the project's
+own coordinates in a key, takes the update `g:y 1.0 → 1.5` for a key the pom does not hold and adds a dependencyManagement
+entry `g:y 1.5`, while the `<dependencies>` entry stays at 1.0: `Write` succeeds and the re-read requirements are not the
+substituted ones. -/
+theorem C13_pom_key_property_witness :
+    let pom : Pom := ⟨[⟨[], "${grp}".toList, ['y'], [], [], "1.0".toList, false⟩], [⟨[], "grp".toList, ['g']⟩], "1.0".toList, "root".toList⟩
+    let us : List Upd := [⟨"g:y".toList, [], [], [], "1.0".toList, "1.5".toList⟩]
+    (write pom us).isSome = true ∧ reqsAfter pom us ≠ some (substitute (requirements pom) us) ∧
+    reqsAfter pom us = some [⟨[], (['g'], ['y'], sJar, []), "1.0".toList⟩, ⟨sManagement, (['g'], ['y'], sJar, []), "1.5".toList⟩] ∧
+    feature pom us = some "C13/pom-key-property" := by
   decide
 
 /-- `LiteralCases` is satisfiable on a pom with a profile and dependencyManagement, with two updates. -/
 example : LiteralCases
     ⟨[⟨[], ['x'], ['y'], [], [], "1.0".toList, false⟩, ⟨sManagement, ['x'], ['m'], [], [], "2.0".toList, false⟩,
-      ⟨"profile@p1".toList, ['x'], ['q'], [], [], "3.0".toList, false⟩], [⟨[], ['v'], "9".toList⟩], "1.0".toList⟩
+      ⟨"profile@p1".toList, ['x'], ['q'], [], [], "3.0".toList, false⟩], [⟨[], ['v'], "9".toList⟩], "1.0".toList, []⟩
     [⟨"x:m".toList, [], [], sManagement, "2.0".toList, "2.5".toList⟩, ⟨"x:y".toList, [], [], [], "1.0".toList, "1.1".toList⟩] := by
   constructor
+  · decide
   · decide
   · decide
   · decide
